@@ -1,6 +1,6 @@
 (* The generated kernel (gen/Kernel_gen.v: the translation of the Python text of
-   _find_prob, _are_you_my_child, find_children, is_parent_around and
-   _recursive_restore_prob_order, redone on every run) equals the hand-written
+   _find_prob, _are_you_my_child, find_children, is_parent_around,
+   _recursive_restore_prob_order and initalize_base_structures, redone on every run) equals the hand-written
    model of Next.v that the theorems of C02 / C08 are about.
 
    The equalities hold for every choice of the "undefined" values the generated
@@ -60,7 +60,30 @@ Proof.
     + intros j x s' Hx. rewrite Nat.add_succ_comm. now apply H.
 Qed.
 
+(* a loop without early return that appends one value per element: a map over
+   the enumerated list *)
+Lemma for_from_map {Y : Type} (l : list X) :
+  forall i (body : nat -> X -> list Y -> ctl R (list Y)) (g : nat * X -> Y) s k,
+  (forall j x s, nth_error l j = Some x -> body (i + j) x s = Continue (s ++ [g (i + j, x)])) ->
+  for_from i l body s k = k (s ++ map g (combine (seq i (length l)) l)).
+Proof.
+  induction l as [|a r IH]; intros i body g s k H; simpl.
+  - now rewrite app_nil_r.
+  - generalize (H 0 a s eq_refl). rewrite Nat.add_0_r. intros ->.
+    rewrite (IH (S i) body g).
+    + now rewrite <- app_assoc.
+    + intros j x s' Hx. rewrite Nat.add_succ_comm. now apply H.
+Qed.
+
 End Runtime.
+
+Lemma fold_append_map {X Y : Type} (f : X -> Y) (l : list X) : forall acc,
+  fold_left (fun s x => append s (f x)) l acc = acc ++ map f l.
+Proof.
+  induction l as [|a r IH]; intros acc; simpl.
+  - now rewrite app_nil_r.
+  - rewrite IH. unfold append. now rewrite <- app_assoc.
+Qed.
 
 Section RuntimeBool.
 Context {X : Type}.
@@ -225,6 +248,22 @@ Proof.
   destruct (ple (find_prob rs (upd (ipt it) j pred) (ibase it)) m); reflexivity.
 Qed.
 
+(* ---- initalize_base_structures: every variable a base structure names has a group ---- *)
+Theorem kernel_init_eq (rs : ruleset) :
+  (forall b, In b (bases rs) -> Forall (fun v => 0 < length (groups rs v)) (brepl b)) ->
+  py_initalize_base_structures up rs = init_items rs.
+Proof.
+  intros Hb. unfold py_initalize_base_structures, init_items, for_enum. cbv zeta.
+  rewrite for_from_map with (g := fun kb =>
+    mk rs (fst kb) (map (fun v => (v, 0)) (brepl (snd kb))) (bprob (snd kb))); [reflexivity|].
+  intros j b s Hn. simpl (0 + j). unfold for_each.
+  rewrite for_from_fold with (f := fun t v => append t (v, 0)); [|reflexivity].
+  rewrite fold_append_map. simpl app.
+  rewrite kernel_find_prob_eq; [reflexivity|].
+  unfold inrange. apply Forall_map. simpl.
+  apply (Hb b). eapply nth_error_In; eassumption.
+Qed.
+
 (* ---- _recursive_restore_prob_order ----
    mn is min_prob: the model has none; the walk agrees with the model as long as
    no probability it meets is below mn (PcfgQueue passes 0.0).  General form:
@@ -333,9 +372,13 @@ Fixpoint kernel_run (pop : queue -> option (item * queue)) (rs : ruleset) (n : n
   | S k => kernel_run pop rs k (kernel_step pop rs s)
   end.
 
-(* PcfgQueue.__init__ (restore branch) with the generated walk *)
+(* PcfgQueue.__init__ with the generated functions: new session / restored session *)
+Definition kernel_start (rs : ruleset) : state :=
+  {| emitted := []; pending := py_initalize_base_structures up rs |}.
+
 Definition kernel_restored (rs : ruleset) (m mn : P) : queue :=
-  flat_map (fun it => py_restore up un (restore_fuel rs it) rs it m mn 0) (init_items rs).
+  flat_map (fun it => py_restore up un (restore_fuel rs it) rs it m mn 0)
+           (py_initalize_base_structures up rs).
 
 Lemma flat_map_ext_In {X Y : Type} (f g : X -> list Y) (l : list X) :
   (forall x, In x l -> f x = g x) -> flat_map f l = flat_map g l.
@@ -346,6 +389,16 @@ Qed.
 
 Section WithWf.
 Context (rs : ruleset) (Hwf : wf rs).
+
+Theorem kernel_init_eq_wf : py_initalize_base_structures up rs = init_items rs.
+Proof.
+  apply kernel_init_eq. intros b Hb. unfold wf in Hwf. rewrite Forall_forall in Hwf.
+  destruct (Hwf b Hb) as [_ Hg]. eapply Forall_impl; [|exact Hg].
+  intros v [Hne _]. destruct (groups rs v); [congruence|simpl; lia].
+Qed.
+
+Lemma kernel_start_eq : kernel_start rs = start rs.
+Proof. unfold kernel_start, start. now rewrite kernel_init_eq_wf. Qed.
 
 Lemma kernel_step_eq pop (s : state) : pop_ok_okb pop ->
   (forall x, In x (pending s) -> good rs x) -> kernel_step pop rs s = step pop rs s.
@@ -374,8 +427,8 @@ Qed.
 (* the queue loop calling the translated find_children goes through exactly
    the states of the model's run: C01 / C02 transfer verbatim *)
 Theorem kernel_run_eq pop n : pop_ok_okb pop ->
-  kernel_run pop rs n (start rs) = run pop rs n (start rs).
-Proof. intros Hpop. exact (kernel_run_eq_from pop Hpop n 0). Qed.
+  kernel_run pop rs n (kernel_start rs) = run pop rs n (start rs).
+Proof. intros Hpop. rewrite kernel_start_eq. exact (kernel_run_eq_from pop Hpop n 0). Qed.
 
 (* the translated restore walk rebuilds exactly the model's restored queue: C08
    transfers verbatim *)
@@ -383,7 +436,7 @@ Theorem kernel_restored_eq (m mn : P) :
   (forall p, okb p = true -> ple mn p = true) ->
   kernel_restored rs m mn = restored_gen false rs m.
 Proof.
-  intros Hmn. unfold kernel_restored, restored_gen. apply flat_map_ext_In.
+  intros Hmn. unfold kernel_restored, restored_gen. rewrite kernel_init_eq_wf. apply flat_map_ext_In.
   intros it Hit. apply (In_init_items rs Hwf) in Hit. destruct Hit as [Hit _].
   apply In_all_preterminals in Hit.
   destruct (good_ok rs Hwf it Hit) as [Hb Ht].
@@ -393,8 +446,8 @@ Qed.
 (* C02 and the frontier theorem of C08, stated for the loops that call the
    translated functions *)
 Theorem kernel_exactly_once pop : pop_ok_okb pop ->
-  Permutation (emitted (kernel_run pop rs (total rs) (start rs))) (all_preterminals rs) /\
-  pending (kernel_run pop rs (total rs) (start rs)) = [].
+  Permutation (emitted (kernel_run pop rs (total rs) (kernel_start rs))) (all_preterminals rs) /\
+  pending (kernel_run pop rs (total rs) (kernel_start rs)) = [].
 Proof. intros Hpop. rewrite (kernel_run_eq pop (total rs) Hpop). exact (C02_exactly_once_okb rs Hwf pop Hpop). Qed.
 
 Theorem kernel_restore_frontier (m mn : P) :
@@ -418,10 +471,96 @@ Proof. intros Hwf. apply kernel_restored_eq; [exact Hwf|exact F64_zero_below_ok]
    run and a restore, with nan / (7, 7) as the undefined values *)
 Example kernel_hypotheses_satisfiable :
   wf demo_rs /\ Forall (fun it => inrange demo_rs (ipt it)) (all_preterminals demo_rs) /\
-  length (emitted (@kernel_run F64 nan (7, 7) pop_first_max demo_rs 44 (start demo_rs))) = 44 /\
+  length (emitted (@kernel_run F64 nan (7, 7) pop_first_max demo_rs 44 (@kernel_start F64 nan demo_rs))) = 44 /\
   length (@kernel_restored F64 nan (7, 7) demo_rs 0x1p-5%float 0%float) = 5.
 Proof.
   split; [exact demo_wf|]. split.
   - apply Forall_forall. intros it Hit. apply good_inrange. now apply In_all_preterminals.
   - split; vm_compute; reflexivity.
 Qed.
+
+(* ------------------------------------------------------------------ *)
+(* For the coordinator: the blocks below are meant to be appended to
+   Props/C02.v and Props/C08.v (this file does not own them).  Both need, after
+   the existing imports,
+     From Pcfg Require Import KernelRt KernelGenProofs.
+     From PcfgGen Require Import Kernel_gen.
+   They were compiled against the current Props files in a private copy.
+
+   ===== Props/C02.v =====
+(* ---- second tie to the source: gen/Kernel_gen.v is the translation of the Python
+   text of _find_prob, _are_you_my_child, find_children and initalize_base_structures (harness/translate_kernel.py,
+   redone on every run); it equals the model the theorems above are about, for every
+   choice of the undefined values up / un and all parse trees with indices in range *)
+Theorem C02_source_find_prob_is_model :
+  forall (A : palg) (up : P A) (rs : ruleset A) (t : pt) (b : P A),
+  inrange rs t -> py_find_prob up rs t b = find_prob rs t b.
+Proof. exact (fun A up rs t b => kernel_find_prob_eq up rs t b). Qed.
+
+Theorem C02_source_my_child_is_model :
+  forall (A : palg) (up : P A) (un : var * nat) (rs : ruleset A) (child : pt) (base : P A) (ppos : nat) (pprob : P A),
+  inrange rs child -> py_are_you_my_child up un rs child base ppos pprob = my_child rs child base ppos pprob.
+Proof. exact (fun A up un rs child base ppos pprob => kernel_my_child_eq up un rs child base ppos pprob). Qed.
+
+Theorem C02_source_find_children_is_model :
+  forall (A : palg) (up : P A) (un : var * nat) (rs : ruleset A) (it : item A),
+  inrange rs (ipt it) -> py_find_children up un rs it = find_children rs it.
+Proof. exact (fun A up un rs it => kernel_find_children_eq up un rs it). Qed.
+
+Theorem C02_source_init_is_model :
+  forall (A : palg) (up : P A) (rs : ruleset A), wf rs ->
+  py_initalize_base_structures up rs = init_items rs.
+Proof. exact (fun A up rs H => kernel_init_eq_wf up rs H). Qed.
+
+(* the queue loop over the translated initalize_base_structures / find_children goes
+   through the model's states *)
+Theorem C02_translated_run_is_model :
+  forall (A : palg) (up : P A) (un : var * nat) (rs : ruleset A), wf rs -> forall pop n, pop_ok_okb pop ->
+  kernel_run up un pop rs n (kernel_start up rs) = run pop rs n (start rs).
+Proof. exact (fun A up un rs H pop n => kernel_run_eq up un rs H pop n). Qed.
+
+Theorem C02_exactly_once_translated :
+  forall (A : palg) (up : P A) (un : var * nat) (rs : ruleset A), wf rs -> forall pop, pop_ok_okb pop ->
+  Permutation (emitted (kernel_run up un pop rs (total rs) (kernel_start up rs))) (all_preterminals rs) /\
+  pending (kernel_run up un pop rs (total rs) (kernel_start up rs)) = nil.
+Proof. exact (fun A up un rs H pop => kernel_exactly_once up un rs H pop). Qed.
+
+Print Assumptions C02_exactly_once_translated.
+
+   ===== Props/C08.v =====
+(* ---- second tie to the source: gen/Kernel_gen.v is the translation of the Python
+   text of is_parent_around and _recursive_restore_prob_order (harness/translate_kernel.py,
+   redone on every run).  The first theorem no longer holds when the source compares
+   with `<` again (it is stated for parent_around_gen false). *)
+Theorem C08_source_parent_around_is_model :
+  forall (A : palg) (up : P A) (un : var * nat) (rs : ruleset A) (it : item A) (m : P A),
+  inrange rs (ipt it) -> py_is_parent_around up un rs it m = parent_around_gen false rs it m.
+Proof. exact (fun A up un rs it m => kernel_parent_around_eq up un rs it m). Qed.
+
+(* mn is min_prob, which the model does not have: PcfgQueue passes 0.0 *)
+Theorem C08_source_restore_is_model :
+  forall (A : palg) (up : P A) (un : var * nat) (rs : ruleset A) (m mn : P A) (fuel : nat) (it : item A) (left : nat),
+  inrange rs (ipt it) -> plt (iprob it) mn = false ->
+  (forall t, inrange rs t -> plt (find_prob rs t (ibase it)) mn = false) ->
+  py_restore up un fuel rs it m mn left = restore_gen false fuel rs it m left.
+Proof. exact (fun A up un rs m mn fuel it left => kernel_restore_eq up un rs m mn fuel it left). Qed.
+
+Theorem C08_translated_restore_is_model :
+  forall (A : palg) (up : P A) (un : var * nat) (rs : ruleset A), wf rs -> forall m mn : P A,
+  (forall p, okb p = true -> ple mn p = true) ->
+  kernel_restored up un rs m mn = restored_gen false rs m.
+Proof. exact (fun A up un rs H m mn => kernel_restored_eq up un rs H m mn). Qed.
+
+Theorem C08_restore_frontier_translated :
+  forall (A : palg) (up : P A) (un : var * nat) (rs : ruleset A), wf rs -> forall m mn : P A,
+  okb m = true -> (forall p, okb p = true -> ple mn p = true) ->
+  Permutation (kernel_restored up un rs m mn) (filter (frontierb rs m) (all_preterminals rs)).
+Proof. exact (fun A up un rs H m mn => kernel_restore_frontier up un rs H m mn). Qed.
+
+Theorem C08_translated_restore_binary64 :
+  forall (up : P F64) (un : var * nat) (rs : ruleset F64) (m : P F64), wf rs ->
+  kernel_restored up un rs m 0%float = restored_gen false rs m.
+Proof. exact kernel_restored_eq_F64. Qed.
+
+Print Assumptions C08_restore_frontier_translated.
+*)
